@@ -9,6 +9,9 @@ import GoCrypt.Props.CodecIR
 import GoCrypt.Props.CodecIRLink
 import GoCrypt.Props.CodecIRU
 import GoCrypt.Props.CodecIRU2
+import GoCrypt.Props.CodecIRU3
+import GoCrypt.Props.CodecIRU3Link
+import GoCrypt.Props.CodecIRU3Closed
 
 /-!
 # C20 — Unmarshal accepts only respellings of what Marshal would have written
@@ -133,4 +136,24 @@ theorem respell_reflexive_examples :
 #print axioms GoCrypt.CodecIRU.loop_eq_loopFields
 #print axioms GoCrypt.CodecIRU.after_loop_eq_model
 #print axioms GoCrypt.CodecIRU.callsU_callIn
+-- Unmarshal IS the current code (Props/CodecIRU3*.lean): the whole regenerated Unmarshal — prologue, HashPrefix, the field loop with grouped params, the end checks — on a zero destination returns nil with the cells holding
+-- finalVals ti out when Codec.unmarshal ti hash = .ok out, or an error of the model's class; with getTypeInfo from the regenerated type-info program and closed instances for the shipped scheme structs (every hash under 300 bytes)
+#print axioms GoCrypt.CodecIRU.unmarshal_getTypeInfo_error
+#print axioms GoCrypt.CodecIRU.unmarshalIndirect_root_eq
+#print axioms GoCrypt.CodecIRU.unmarshal_eq_model_of_loopTail
+#print axioms GoCrypt.CodecIRU.unmarshal_eq_model_nogroup
+#print axioms GoCrypt.CodecIRU.step_eq_stepField_general
+#print axioms GoCrypt.CodecIRU.loop_eq_loopFields_general
+#print axioms GoCrypt.CodecIRU.after_loop_eq_model_general
+#print axioms GoCrypt.CodecIRU.unmarshal_eq_model
+#print axioms GoCrypt.CodecIRU.unmarshal_eq_model_typeInfoOf
+#print axioms GoCrypt.CodecIRU.parseOkAt_extU
+#print axioms GoCrypt.CodecIRU.indirectTypeOk_extU
+#print axioms GoCrypt.CodecIRU.fieldStringOk_extU
+#print axioms GoCrypt.CodecIRU.getTypeInfoOk_extU
+#print axioms GoCrypt.CodecIRU.unmarshal_closed_of_checks
+#print axioms GoCrypt.CodecIRU.unmarshal_sha256_closed
+#print axioms GoCrypt.CodecIRU.unmarshal_bcrypt_closed
+#print axioms GoCrypt.CodecIRU.unmarshal_sunmd5_closed
+#print axioms GoCrypt.CodecIRU.unmarshal_argon2_closed
 end GoCrypt.C20
